@@ -155,6 +155,20 @@ def vertex_degrees(nV, F):
     return deg
 
 
+def n_clusters(values, tol):
+    """Number of groups of values separated by gaps larger than tol."""
+    x = np.sort(np.asarray(values, float).ravel())
+    if x.size == 0:
+        return 0
+    return int(1 + np.sum(np.diff(x) > tol))
+
+
+def has_point(V, c, tol):
+    V = np.asarray(V, float)
+    c = np.asarray(c, float)
+    return bool(np.any(np.all(np.abs(V - c[None, :]) <= tol, axis=1)))
+
+
 def match_point_sets(A, B, tol):
     """True when the two point lists are equal as multisets up to tol (greedy nearest matching, small inputs)."""
     A = [np.asarray(a, float) for a in A]
